@@ -141,7 +141,7 @@ int lltd_port_send_frame(void *c, const void *f, size_t n) {
     return fail ? -1 : 0;
 }
 
-int lltd_port_get_mtu(void *c, size_t *o) { vctx *v = c; if (v->mtufail) return -1; *o = v->mtu; return 0; }
+int lltd_port_get_mtu(void *c, size_t *o) { vctx *v = c; if (v->mtufailat > 0 && --v->mtufailat == 0) return -1; if (v->mtufail) return -1; *o = v->mtu; return 0; }
 int lltd_port_get_icon_image(void **d, size_t *s) {
     if (!g_hasicon) return -1;
     void *p = lltd_port_malloc(g_iconlen);
@@ -165,7 +165,7 @@ size_t lltd_port_get_hostname(void *d, size_t n) { return put_clamped(d, n, g_ho
 size_t lltd_port_get_support_url(void *d, size_t n) { (void)d; (void)n; return 0; }
 int lltd_port_get_upnp_uuid(uint8_t o[16]) { (void)o; return -1; }
 size_t lltd_port_get_hw_id(void *d, size_t n) { return put_clamped(d, n, g_hwid, g_hwidlen); }
-int lltd_port_get_mac_address(void *c, ethernet_address_t *o) { vctx *v = c; if (v->macfail) return -1; memcpy(o->a, v->macAddress, 6); return 0; }
+int lltd_port_get_mac_address(void *c, ethernet_address_t *o) { vctx *v = c; if (v->macfailat > 0 && --v->macfailat == 0) return -1; if (v->macfail) return -1; memcpy(o->a, v->macAddress, 6); return 0; }
 uint32_t lltd_port_get_characteristics_flags(void *c) { return ((vctx *)c)->flags; }
 int lltd_port_get_if_type(void *c, uint32_t *o) { vctx *v = c; if (v->iftypefail) return -1; *o = v->iftype; return 0; }
 int lltd_port_get_ipv4_address(void *c, uint32_t *o) {
@@ -292,6 +292,8 @@ static void apply_cfg(char **tok, int ntok) {
         } else {
             if (!strcmp(k, "mtu")) v->mtu = (size_t)strtoul(val, NULL, 10);
             else if (!strcmp(k, "mtufail")) v->mtufail = atoi(val);
+            else if (!strcmp(k, "mtufailat")) v->mtufailat = atol(val);
+            else if (!strcmp(k, "macfailat")) v->macfailat = atol(val);
             else if (!strcmp(k, "mac")) unhex(val, v->macAddress, 6);
             else if (!strcmp(k, "macfail")) v->macfail = atoi(val);
             else if (!strcmp(k, "flags")) v->flags = (uint32_t)strtoul(val, NULL, 10);
@@ -444,9 +446,10 @@ static void run_op(char *line) {
         pr_led(); putchar('\n');
     }
 #endif
-    else if (!strcmp(op, "ss_map")) { vctx *v = ctx_of(tok[1]); switch_state_mapping(v->mappingAutomata, atoi(tok[2]), "v"); printf("="); pr_autom(v); putchar('\n'); }
-    else if (!strcmp(op, "ss_sess")) { vctx *v = ctx_of(tok[1]); switch_state_session(v->sessionAutomata, atoi(tok[2]), "v"); printf("="); pr_autom(v); putchar('\n'); }
-    else if (!strcmp(op, "ss_enum")) { vctx *v = ctx_of(tok[1]); switch_state_enumeration(v->enumerationAutomata, atoi(tok[2]), "v"); printf("="); pr_autom(v); putchar('\n'); }
+    /* a constructor that reported failure (NULL) is not passed on to the switch functions (the caller's duty) */
+    else if (!strcmp(op, "ss_map")) { vctx *v = ctx_of(tok[1]); if (v->mappingAutomata) switch_state_mapping(v->mappingAutomata, atoi(tok[2]), "v"); printf("="); pr_autom(v); putchar('\n'); }
+    else if (!strcmp(op, "ss_sess")) { vctx *v = ctx_of(tok[1]); if (v->sessionAutomata) switch_state_session(v->sessionAutomata, atoi(tok[2]), "v"); printf("="); pr_autom(v); putchar('\n'); }
+    else if (!strcmp(op, "ss_enum")) { vctx *v = ctx_of(tok[1]); if (v->enumerationAutomata) switch_state_enumeration(v->enumerationAutomata, atoi(tok[2]), "v"); printf("="); pr_autom(v); putchar('\n'); }
 #if VIEW_AUTOMATA
     else if (!strcmp(op, "set_map")) { vctx *v = ctx_of(tok[1]); v->mappingAutomata->current_state = (uint8_t)atoi(tok[2]); v->mappingAutomata->last_ts = strtoull(tok[3], NULL, 10); printf("="); pr_autom(v); putchar('\n'); }
     else if (!strcmp(op, "set_sess")) { vctx *v = ctx_of(tok[1]); v->sessionAutomata->current_state = (uint8_t)atoi(tok[2]); v->sessionAutomata->last_ts = strtoull(tok[3], NULL, 10); printf("="); pr_autom(v); putchar('\n'); }
@@ -491,8 +494,8 @@ static void run_op(char *line) {
     }
 #endif
 #if VIEW_AUTOMATA
-    else if (!strcmp(op, "map_charge")) { vctx *v = ctx_of(tok[1]); mapping_on_charge(v->mappingAutomata->extra); printf("="); pr_autom(v); putchar('\n'); }
-    else if (!strcmp(op, "map_touch")) { vctx *v = ctx_of(tok[1]); mapping_reset_inactive_timeout(v->mappingAutomata->extra); printf("="); pr_autom(v); putchar('\n'); }
+    else if (!strcmp(op, "map_charge")) { vctx *v = ctx_of(tok[1]); if (v->mappingAutomata) mapping_on_charge(v->mappingAutomata->extra); printf("="); pr_autom(v); putchar('\n'); }
+    else if (!strcmp(op, "map_touch")) { vctx *v = ctx_of(tok[1]); if (v->mappingAutomata) mapping_reset_inactive_timeout(v->mappingAutomata->extra); printf("="); pr_autom(v); putchar('\n'); }
     else if (!strcmp(op, "map_reset_charge")) { vctx *v = ctx_of(tok[1]); mapping_reset_charge(v->mappingAutomata->extra); printf("="); pr_autom(v); putchar('\n'); }
 #endif
     else printf("= unknown-op\n");
